@@ -76,7 +76,10 @@ class World:
     """a generated environment + initial simulation state + the id interner for the Lean side"""
 
     def __init__(self, rng: random.Random, *, n_veh=(2, 6), n_stn=(1, 3), n_base=(1, 2), dt_choices=(1, 7, 30, 60, 90),
-                 search_res: int = 9, with_ice: bool = True, with_fleets: bool = True, with_humans: bool = True):
+                 search_res: int = 9, with_ice: bool = True, with_fleets: bool = True, with_humans: bool = True,
+                 queue_scenario: bool = False):
+        """`queue_scenario`: one public station with a single plug type and one or two plugs, every
+        vehicle standing at it with a half-empty battery (C18)"""
         self.rng = rng
         self.search_res = search_res
         self.dt = rng.choice(dt_choices)
@@ -126,6 +129,12 @@ class World:
                 return Membership.from_tuple(("fB",))
             return Membership.from_tuple(FLEETS)
 
+        if queue_scenario:
+            with_fleets = False
+            with_humans = False
+            n_stn = (1, 1)
+            members = lambda: Membership()  # noqa: E731
+        self.queue_scenario = queue_scenario
         self.members = members
         n_s = rng.randint(*n_stn)
         n_b = rng.randint(*n_base)
@@ -141,6 +150,8 @@ class World:
         stations = []
         for sid in self.station_ids:
             kinds = rng.sample(sorted(CHARGERS.keys()), rng.randint(1, 3))
+            if queue_scenario:
+                kinds = [rng.choice(["DCFC", "LEVEL_2"])]
             chargers = immutables.Map({k: rng.randint(1, 2) for k in kinds})
             on_shift = frozenset(k for k in kinds if rng.random() < 0.7)
             st = Station.build(
@@ -172,12 +183,16 @@ class World:
         for vid in self.vehicle_ids:
             mech = self.ice if (with_ice and rng.random() < 0.25) else self.bev
             soc = rng.choice([1.0, rng.uniform(0.2, 0.95), rng.uniform(0.0005, 0.02), 0.0])
+            if queue_scenario:
+                soc = rng.uniform(0.3, 0.9)
             if with_humans and rng.random() < 0.3:
                 attr = HumanDriverAttributes(vid, rng.choice(["sched_on", "sched_off"]), rng.choice(self.base_ids), rng.random() < 0.3)
                 driver = HumanAvailable(attr) if rng.random() < 0.6 else HumanUnavailable(attr)
             else:
                 driver = AutonomousAvailable(AutonomousDriverAttributes(vid))
             pos = self.net.position_from_geoid(rng.choice(self.cells))
+            if queue_scenario and rng.random() < 0.85:
+                pos = stations[0].position
             vehicles.append(
                 Vehicle(
                     id=vid,
